@@ -75,7 +75,7 @@ theorem C17_pseudo_clients_never_expire (st : St) (now : Int) (id : Id) (h : id.
 /-- regenerated: the comparison in getSessionLocked, and the two skip conditions, the timeout and
 the proposed entry of ExpireSessions -/
 theorem C17_wiring :
-    Gen.Exprs.fact "getsession.conds" = "local:bool ;; param1.Id < recv.lastProcessed.Id" ∧
+    Gen.Exprs.fact "getsession.conds" = "recv.sessions[param1][1] ;; param1.Id < recv.lastProcessed.Id" ∧
     Gen.Exprs.fact "expire.conds" = "0 != rangekey.Reply ;; time.Since(rangeval.LastActivity) <= recv.sessionExpiration()" ∧
     Gen.Exprs.fact "expire.timeout.helper" = "return time.Duration(recv.Config.SessionExpiration)" ∧
     Gen.Exprs.fact "expire.msg.Type" = "robust.DeleteSession" ∧
